@@ -125,7 +125,7 @@ pub fn run_case(ctx: &mut Ctx, which: Which, idx: u64) {
 
     // per-automaton table monitor: for-all-haystacks reach
     let trie = trie_for(&case, &spec);
-    let sr = structure(ctx, &p, Some(&trie));
+    let sr = if which == Which::C01 { structure(ctx, &p, Some(&trie)) } else { structure_head_only(ctx, &p, Some(&trie)) };
     structure_stats(&mut ctx.rep, &sr);
     if !sr.table.is_empty() || !sr.shape.is_empty() {
         let mut msgs = sr.shape.clone();
